@@ -16,7 +16,7 @@ class C07(PropBase):
     lean_modules = ["SqModel.Props.C07", "SqModel.Proofs.Bridge"]
     extractors = ["trans"]
     rule = ("every 6-bit code 0..63 in each of the 8 character positions (512 frames) plus random 48-bit strings, TC 1..4 x "
-            "CA 0..7, as creating frame, after a DF11 and after an identification squitter with the same characters but another type code and category, -U/-R on/off; BDS 2,0 via DF20 and DF21 under capability 0..7 x -R, for rows with and without an earlier identification squitter. "
+            "CA 0..7, as creating frame, after a DF11, after an identification squitter with the same characters but another type code and category, and after two identification squitters that differ in one character (each position), -U/-R on/off; BDS 2,0 via DF20 and DF21 under capability 0..7 x -R, for rows with and without an earlier identification squitter. "
             "row.ais / row.category against the expectation computed from the generated codes and against the Lean spec "
             "line. Non-trivial = callsign with at least one character; distinct by (frame, options).")
 
@@ -30,7 +30,7 @@ class C07(PropBase):
         for _ in range(500 if tier == "quick" else 20000):
             sets.append([rng.randrange(64) for _ in range(8)])
         for (u, r) in gen.ALL_CFGS:
-            for first in (False, True, "same-callsign"):
+            for first in (False, True, "same-callsign", "one-char"):
                 addrs, frames, exp = [], [], []
                 priors = {}
                 for i, codes in enumerate(sets):
@@ -39,10 +39,19 @@ class C07(PropBase):
                     addrs.append(a); exp.append((expect_callsign(codes), tc, ca))
                     frames.append(F.df17(rng.randrange(8), a, F.me_ident(tc, ca, codes)))
                     # an earlier identification squitter with the same characters but another type code / category
-                    priors[a] = F.df17(5, a, F.me_ident(1 + ((tc + rng.randrange(3)) % 4), (ca + 1 + rng.randrange(7)) % 8, codes)) \
-                        if first == "same-callsign" else F.df11(5, a, 0)
+                    if first == "same-callsign":
+                        priors[a] = F.df17(5, a, F.me_ident(1 + ((tc + rng.randrange(3)) % 4), (ca + 1 + rng.randrange(7)) % 8, codes))
+                    elif first == "one-char":
+                        # the earlier identification differs in exactly one character (every position in turn); two such
+                        # squitters precede the one under test so that both have gone through the update path
+                        pc = list(codes); pc[i % 8] = (pc[i % 8] % 26) + 1 if pc[i % 8] != ((pc[i % 8] % 26) + 1) else 48
+                        priors[a] = F.df17(5, a, F.me_ident(tc, ca, pc))
+                    else:
+                        priors[a] = F.df11(5, a, 0)
                 ops = ["reset", gen.cfg_op(use_update=u, relaxed=r), "case 0"]
                 if first is not True:
+                    ops += gen.seg([priors[a] for a in addrs])
+                if first == "one-char":
                     ops += gen.seg([priors[a] for a in addrs])
                 ops += gen.seg(frames) + ["dump", "case 1"] + ["q frame " + f for f in frames[:700]]
                 impl, _, model = run.execute(ops, model=driver_ok)
@@ -55,7 +64,7 @@ class C07(PropBase):
                     d = rows.get(a, {})
                     if d.get("ais") != '"%s"' % cs or d.get("cat") != f"{tc}/{ca}":
                         self.fail(rep, f"identification squitter {f}: row shows ais={d.get('ais')} cat={d.get('cat')}, expected \"{cs}\" {tc}/{ca} ({ctx})",
-                                  {"ops": ["reset", gen.cfg_op(use_update=u, relaxed=r)] + ([] if first is True else gen.seg([priors[a]])) + gen.seg([f]) + ["dump"],
+                                  {"ops": ["reset", gen.cfg_op(use_update=u, relaxed=r)] + ([] if first is True else gen.seg([priors[a]] * (2 if first == "one-char" else 1))) + gen.seg([f]) + ["dump"],
                                    "frame": f, "expected_ais": cs, "expected_cat": f"{tc}/{ca}", "address": a})
                         return
                     if cs:
